@@ -194,4 +194,25 @@ CLAIMS = {
                 "urlopen do for a particular name or working directory.",
         "note": _TB,
     },
+    "C17": {
+        "level": "other",
+        "technique": "printer templates recovered from the decision table of "
+                     "Section.__str__, checked against the line grammar by "
+                     "regular-language inclusion and tagged-automaton "
+                     "capture equivalence; escape-symmetry and order rules",
+        "text": "Decides, per printed line template with holes ranging over "
+                "the regular languages of what the parser can store, that "
+                "the documented line classification reads the line back as "
+                "the same kind, that a header is never the empty form, and "
+                "that the parser's capture functions return the printed "
+                "type/name and key/value; that every field the reader passes "
+                "through $-substitution is printed through the inverse "
+                "escape; that values of a key and sections are printed and "
+                "collected in stored order (sorting only on keys); that "
+                "%define/%include are refused on every path.  Does not "
+                "decide blank-line cosmetics or dictionary equality of the "
+                "reloaded object (composition of the per-line inverse with "
+                "order keeping is not machine-checked).",
+        "note": _TB,
+    },
 }
